@@ -57,7 +57,8 @@ Fixpoint rows_ok (n : node) : bool :=
 (* oracles that answer nothing: enough for documents whose rendering asks no library function *)
 Definition dummy_oracles : oracles :=
   mkO (fun _ => []) (fun s => s) (fun s => s) (fun s => s) (fun _ => false) (fun s => s)
-      (fun _ _ => None) (fun s => s) (fun s => s) (fun _ => None) (fun _ => None).
+      (fun _ _ => None) (fun s => s) (fun s => s) (fun _ => None) (fun _ => None)
+      (fun _ => None) (fun _ => false) (fun _ => []) (fun _ => None).
 
 Definition default_cfg : cfg :=
   mkCfg Myst false [] true false [] false [37] 0 true true.
